@@ -324,6 +324,7 @@ CORPUS = [
     {"t": "Multiplier", "k": 4, "mod": 7, "regs": {"x": [0, 1, 2], "work": [3, 4, 5, 6, 7]}, "order": list(range(8))},
     {"t": "OutMultiplier", "mod": 8, "regs": {"x": [0, 1], "y": [2], "out": [4, 5, 6], "work": [7, 8, 9, 10, 3]}, "order": list(range(11))},
     {"t": "SignedOutMultiplier", "zeroed": True, "regs": {"x": [0, 1], "y": [2, 3], "out": [4, 5, 6], "work": [7, 8]}, "order": list(range(9))},
+    {"t": "SignedOutMultiplier", "zeroed": False, "regs": {"x": [0, 1], "y": [2, 3], "out": [4, 5, 6], "work": [7, 8, 9, 10, 11, 12, 13]}, "order": list(range(14))},
     {"t": "ModExp", "k": 2, "mod": 7, "regs": {"x": [0, 1], "out": [2, 3, 4], "work": [5, 6, 7, 8, 9]}, "order": list(range(10))},
     {"t": "OutSquare", "regs": {"x": [0, 1], "out": [2, 3, 4], "work": [5, 6, 7]}, "order": list(range(8)), "matrix": True},
     {"t": "SignedOutSquare", "regs": {"x": [0, 1, 2], "out": [3, 4, 5], "work": [6, 7, 8]}, "order": list(range(9))},
